@@ -163,7 +163,7 @@ pub fn run_history(case: &HCase, focus: Focus, obs: &mut Obs) -> Verdict {
             let sig: String = $sig;
             if $prop == focus {
                 if vcore::kf::is_open_global(&sig) {
-                    let stop = sig.ends_with(".self_reference");
+                    let stop = sig.ends_with(".self_reference") || sig.ends_with(".two_fks_same_parent");
                     if !obs.known_hits.contains(&sig) {
                         obs.known_hits.push(sig);
                     }
@@ -189,9 +189,18 @@ pub fn run_history(case: &HCase, focus: Focus, obs: &mut Obs) -> Verdict {
         let kind = stmt_kind(s);
         // statements on a table with a self-referencing FOREIGN KEY (recorded defects: the cascade
         // works on stale row positions of the same table)
-        let stmt_self_ref = match s {
-            Stmt::Delete { t, .. } | Stmt::Update { t, .. } | Stmt::Truncate { t } => specs[*t].fks.iter().any(|f| f.parent == *t),
-            _ => false,
+        // (referential actions started by a statement on another table can reach such a table too,
+        // so the whole schema is looked at)
+        let schema_self_ref = specs.iter().enumerate().any(|(i, sp)| sp.fks.iter().any(|f| f.parent == i));
+        let stmt_self_ref = schema_self_ref && matches!(s, Stmt::Delete { .. } | Stmt::Update { .. } | Stmt::Truncate { .. });
+        let schema_two_fks = specs.iter().any(|sp| sp.fks.iter().any(|f| sp.fks.iter().filter(|g| g.parent == f.parent).count() >= 2));
+        let stmt_two_fks = schema_two_fks && matches!(s, Stmt::Delete { .. } | Stmt::Update { .. });
+        let stmt_sfx = if stmt_self_ref {
+            ".self_reference"
+        } else if stmt_two_fks {
+            ".two_fks_same_parent"
+        } else {
+            ""
         };
         let pre = state.clone();
         let opaque = matches!(s, Stmt::Replace { .. } | Stmt::Upsert { .. });
@@ -246,8 +255,9 @@ pub fn run_history(case: &HCase, focus: Focus, obs: &mut Obs) -> Verdict {
                 if let Some(d) = bad {
                     let shape = where_shape(s, specs);
                     if fk_involved {
-                        let self_sfx = if self_ref { ".self_reference" } else { "" };
-                        report!(Focus::C12, format!("c12.effect.{}{}", kind, self_sfx), d);
+                        let self_sfx = stmt_sfx;
+                        // one signature per recorded root cause, whatever statement kind exposes it
+                        report!(Focus::C12, if self_sfx.is_empty() { format!("c12.effect.{}", kind) } else { format!("c12{}", self_sfx) }, d);
                     } else {
                         report!(Focus::C09, format!("c09.effect.{}{}", kind, shape), d);
                     }
@@ -316,8 +326,14 @@ pub fn run_history(case: &HCase, focus: Focus, obs: &mut Obs) -> Verdict {
         if specs.iter().any(|s| !s.fks.is_empty()) {
             let es = read_engine_state(&db, specs);
             if let Some(d) = orphans(specs, &es) {
-                let sfx = if stmt_self_ref { ".self_reference" } else { "" };
-                let sig = if e.is_err() { format!("c12.orphan.after_failed_{}{}", kind, sfx) } else { format!("c12.orphan.after_{}{}", kind, sfx) };
+                let sfx = stmt_sfx;
+                let sig = if !sfx.is_empty() {
+                    format!("c12{}", sfx)
+                } else if e.is_err() {
+                    format!("c12.orphan.after_failed_{}", kind)
+                } else {
+                    format!("c12.orphan.after_{}", kind)
+                };
                 report!(Focus::C12, sig, format!("after `{}` ({}): {}", sql, if e.is_err() { "which returned an error" } else { "which succeeded" }, d));
                 // the history continues from the engine's actual state
                 state = es;
